@@ -13,7 +13,7 @@ use std::sync::atomic::{AtomicU64, Ordering};
 use vkit::{bad, ok, ok_trivial, Run, Verdict, B};
 
 const QUERIES: [&str; 10] = ["a", "b", "ab", "A", "a/a", "a/b", "a/ab", "a/b/a", "b/a", "c/a/b"];
-const LINES: [&str; 13] = [
+const LINES: [&str; 15] = [
     "* x",
     "a -x",
     "a !x",
@@ -27,6 +27,9 @@ const LINES: [&str; 13] = [
     "a/b x -x",
     "*b y=1",
     "A z",
+    // a macro that is given a *value* is not expanded by git (only a plain `macro` is)
+    "a m=v",
+    "a binary=yes",
 ];
 /// indices into LINES used for 3-line configurations (thorough)
 const K3_SUBSET: [usize; 9] = [0, 1, 2, 4, 5, 6, 7, 8, 10];
